@@ -71,6 +71,9 @@ Proof.
   constructor; [apply IH|]. apply Forall_forall. intros p Hp. destruct (bits_from_props _ _ _ _ Hp). lia.
 Qed.
 
+Lemma bits_from_end m n : bits_from n m 16 = [].
+Proof. destruct n; reflexivity. Qed.
+
 Definition mask_of (H : list node) (e : nat) : N := match nth_error H e with Some nd => n_mask nd | None => 0 end.
 Definition slots_of (H : list node) (e : nat) : list addr := map (pair e) (bits_from 16 (mask_of H e) 0).
 Definition rem_seq (H : list node) (e : nat) (from : N) (B : list nat) : list addr :=
@@ -82,7 +85,7 @@ Proof.
   intros ND E1. revert A2 l ND E1. induction A1 as [|a A1 IH]; intros A2 l ND E1 E2; subst l.
   - destruct A2 as [|a2 A2]; cbn [app] in E2.
     + injection E2 as Et. auto.
-    + injection E2 as Ex Et. subst a2. exfalso. cbn [app] in ND. inversion ND as [|? ? Hn _]; subst. apply Hn. rewrite Et. apply in_elt.
+    + injection E2 as Ex Et. subst a2. exfalso. cbn [app] in ND. inversion ND as [|? ? Hn _]; subst. apply Hn. apply in_elt.
   - destruct A2 as [|a2 A2]; cbn [app] in E2.
     + injection E2 as Ex Et. subst a. exfalso. cbn [app] in ND. inversion ND as [|? ? Hn _]; subst. apply Hn. apply in_elt.
     + injection E2 as Ex Et. subst a2. cbn [app] in ND. inversion ND as [|? ? _ ND']; subst.
@@ -151,22 +154,24 @@ Section Loop.
   Definition all_slots : list addr := flat_map (slots_of H) L.
 
   (* if the remaining sequence starts inside leaf e (or is empty), walking it yields exactly it *)
+  Lemma rem_seq_end e B : rem_seq H e 16 B = flat_map (slots_of H) B.
+  Proof. unfold rem_seq. rewrite bits_from_end. reflexivity. Qed.
+
   Lemma rem_normal : forall B A e, L = A ++ e :: B ->
     rem_seq H e 16 B = [] \/
     exists A' e' B' p t, L = A' ++ e' :: B' /\ bits_from 16 (mask_of H e') 0 = p :: t /\
                          rem_seq H e 16 B = (e', p) :: map (pair e') t ++ flat_map (slots_of H) B'.
   Proof.
-    induction B as [|e1 B IH]; intros A e EL; unfold rem_seq; cbn [bits_from flat_map].
+    induction B as [|e1 B IH]; intros A e EL; rewrite rem_seq_end.
     - left. reflexivity.
-    - change (16 <=? 16) with true. cbn [map app].
+    - cbn [flat_map].
       destruct (bits_from 16 (mask_of H e1) 0) as [|p t] eqn:Eb.
-      + unfold slots_of at 1. rewrite Eb. cbn [map app].
+      + assert (Es : slots_of H e1 = []) by (unfold slots_of; rewrite Eb; reflexivity). rewrite Es. cbn [app].
         destruct (IH (A ++ [e]) e1) as [E|(A' & e' & B' & p & t & EL' & Eb' & E)]; [rewrite <- app_assoc; exact EL| |].
-        * left. unfold rem_seq in E. cbn [bits_from] in E. change (16 <=? 16) with true in E. exact E.
-        * right. exists A', e', B', p, t. split; [exact EL'|]. split; [exact Eb'|].
-          unfold rem_seq in E. cbn [bits_from] in E. change (16 <=? 16) with true in E. exact E.
-      + right. exists (A ++ [e]), e1, B, p, t. split; [rewrite <- app_assoc; exact EL|]. split; [exact Eb|].
-        unfold slots_of at 1. rewrite Eb. reflexivity.
+        * left. rewrite rem_seq_end in E. exact E.
+        * right. exists A', e', B', p, t. split; [exact EL'|]. split; [exact Eb'|]. rewrite rem_seq_end in E. exact E.
+      + assert (Es : slots_of H e1 = (e1, p) :: map (pair e1) t) by (unfold slots_of; rewrite Eb; reflexivity). rewrite Es.
+        right. exists (A ++ [e]), e1, B, p, t. split; [rewrite <- app_assoc; exact EL|]. split; [exact Eb|]. reflexivity.
   Qed.
 
   Lemma iterate_loop_spec s : nodes s = H -> forall n A e B p t acc f,
@@ -185,8 +190,7 @@ Section Loop.
     destruct t as [|p' t'].
     - (* leaf e exhausted: normalise the rest *)
       cbn [map app]. cbn [map app] in Hn.
-      assert (Er : flat_map (slots_of H) B = rem_seq H e 16 B).
-      { unfold rem_seq. cbn [bits_from]. change (16 <=? 16) with true. reflexivity. }
+      assert (Er : flat_map (slots_of H) B = rem_seq H e 16 B) by (symmetry; apply rem_seq_end).
       rewrite Er. destruct (rem_normal B A e EL) as [E|(A' & e' & B' & q & t & EL' & Eb' & E)].
       + rewrite E. cbn [iter_at]. destruct f; [lia|]. cbn [iterate_loop rev]. reflexivity.
       + rewrite E. cbn [iter_at].
